@@ -498,4 +498,111 @@ theorem evalW_value_level_args (w : FragWorld) (ctx : Ctx) : ∀ l : List C09.Ex
     exact evalW_value_level w ctx a h.1
 end
 
+/-! ### the 65-name fragment lies inside the widened one -/
+
+/-- A side condition looks at the evaluation / the certificate of ITS arguments only. -/
+def PreLocal (pre : (C09.Expr → Bytes) → (C09.Expr → Bool) → List C09.Expr → Bool) : Prop :=
+  ∀ ev ev' dyn dyn' args, (∀ a ∈ args, ev a = ev' a ∧ dyn a = dyn' a) → pre ev dyn args = pre ev' dyn' args
+
+theorem noPre_local : PreLocal noPre := fun _ _ _ _ _ _ => rfl
+
+theorem typedArg_congr {α : Type} (parser : Bytes → Option α) {ev ev' : C09.Expr → Bytes} {dyn dyn' : C09.Expr → Bool}
+    {a : C09.Expr} (h : ev a = ev' a ∧ dyn a = dyn' a) : typedArg parser ev dyn a = typedArg parser ev' dyn' a := by
+  unfold typedArg; rw [h.1, h.2]
+
+theorem typedPre_local {α : Type} (parser : Bytes → Option α) : PreLocal (typedPre parser) := by
+  intro ev ev' dyn dyn' args h
+  unfold typedPre
+  induction args with
+  | nil => rfl
+  | cons a r ih =>
+    simp only [List.all_cons]
+    rw [typedArg_congr parser (h a (by simp)), ih (fun b hb => h b (by simp [hb]))]
+
+theorem percentPre_local : PreLocal FF.percentPre := by
+  intro ev ev' dyn dyn' args h
+  unfold FF.percentPre
+  match args, h with
+  | [], _ => rfl
+  | [_], _ => rfl
+  | [_, d], _ => rfl
+  | [_, d, mx], h => simp only []; rw [typedArg_congr _ (h mx (by simp))]
+  | [_, d, mn, mx], h => simp only []; rw [typedArg_congr _ (h mx (by simp)), typedArg_congr _ (h mn (by simp))]
+  | _ :: _ :: _ :: _ :: _ :: _, _ => rfl
+
+def AllLocal : List (String × Entry) → Prop
+  | [] => True
+  | p :: rest => PreLocal p.2.pre ∧ AllLocal rest
+
+theorem allLocal_mem : ∀ {l : List (String × Entry)}, AllLocal l → ∀ p ∈ l, PreLocal p.2.pre
+  | [], _, p, hp => by cases hp
+  | q :: rest, h, p, hp => by
+    rcases List.mem_cons.mp hp with rfl | hp
+    · exact h.1
+    · exact allLocal_mem h.2 p hp
+
+theorem constPre_local (c : List C09.Expr → Bool) : PreLocal (fun _ _ args => c args) := fun _ _ _ _ _ _ => rfl
+
+theorem fragTable_local : AllLocal fragTable := by
+  unfold fragTable
+  repeat' constructor
+  all_goals first
+    | exact noPre_local
+    | exact typedPre_local _
+    | exact percentPre_local
+    | exact (fun _ _ _ _ _ _ => rfl)
+
+
+theorem fragLookup_name {n : String} {e : Entry} (h : fragLookup n = some e) : fragNames.contains n = true := by
+  have hm := fragLookup_mem h
+  have : n ∈ fragNames := List.mem_map.mpr ⟨(n, e), hm, rfl⟩
+  simpa using this
+
+theorem emptyEval_eq (e : C09.Expr) : emptyEval e = evalTree (envOf emptyCtx stdSem) e := rfl
+
+mutual
+/-- On the old fragment: value-level, same certificate, and inside the widened fragment. -/
+theorem old_in_world (w : FragWorld) : ∀ e : C09.Expr, fragOk e = true →
+    valueLevel e = true ∧ dynW w e = dynE e ∧ fragOkW w e = true
+  | .lit _, _ => ⟨by simp [valueLevel], by rw [dynW, dynE], by simp [fragOkW]⟩
+  | .group _, _ => ⟨by simp [valueLevel], by rw [dynW, dynE], by simp [fragOkW]⟩
+  | .key _, _ => ⟨by simp [valueLevel], by rw [dynW, dynE], by simp [fragOkW]⟩
+  | .call f args, h => by
+    simp only [fragOk, Bool.and_eq_true] at h
+    obtain ⟨hc, ha⟩ := h
+    obtain ⟨hv, hd, hf⟩ := old_in_world_args w args ha
+    unfold callOk at hc
+    cases hl : fragLookup (String.ofList f) with
+    | none => rw [hl] at hc; cases hc
+    | some e =>
+      rw [hl] at hc
+      simp only [Bool.and_eq_true] at hc
+      have hlw := fragLookupW_old w _ e hl
+      have hdyn : dynW w (.call f args) = dynE (.call f args) := by
+        rw [dynW, dynE, hlw, hl]
+        simp only [Entry.toD]
+        cases args with
+        | nil => rw [dynHeadW, dynHead]
+        | cons a r => rw [dynHeadW, dynHead]; rw [(hd a (by simp)).2]
+      refine ⟨by rw [valueLevel, fragLookup_name hl, hv]; rfl, hdyn, ?_⟩
+      rw [fragOkW, hf, Bool.and_true]
+      unfold callOkW
+      rw [hlw]
+      simp only [Entry.toD, hc.1, Bool.true_and]
+      have hloc := allLocal_mem fragTable_local _ (fragLookup_mem hl)
+      rw [hloc (fun a => evalW w a emptyCtx) emptyEval (dynW w) dynE args (fun a ha' => hd a ha')]
+      exact hc.2
+theorem old_in_world_args (w : FragWorld) : ∀ l : List C09.Expr, fragOkArgs l = true →
+    valueLevelArgs l = true ∧ (∀ a ∈ l, evalW w a emptyCtx = emptyEval a ∧ dynW w a = dynE a) ∧ fragOkArgsW w l = true
+  | [], _ => ⟨by simp [valueLevelArgs], fun a ha => (by cases ha), by simp [fragOkArgsW]⟩
+  | a :: rest, h => by
+    simp only [fragOkArgs, Bool.and_eq_true] at h
+    obtain ⟨h1, h2, h3⟩ := old_in_world w a h.1
+    obtain ⟨r1, r2, r3⟩ := old_in_world_args w rest h.2
+    refine ⟨by rw [valueLevelArgs, h1, r1]; rfl, fun b hb => ?_, by rw [fragOkArgsW, h3, r3]; rfl⟩
+    rcases List.mem_cons.mp hb with rfl | hb
+    · exact ⟨by rw [emptyEval_eq]; exact evalW_value_level w emptyCtx _ h1, h2⟩
+    · exact r2 b hb
+end
+
 end Rare.C09
